@@ -56,7 +56,7 @@ func (ja *JSONBytesAccessor) GetString(key string) (value string, ok bool) {
 // GetStringArray returns the []string found by the given json key and whether it could be successfully extracted.
 func (ja *JSONBytesAccessor) GetStringArray(key string) (value []string, ok bool) {
 	result := gjson.GetBytes(*ja.json, key)
-	if !result.Exists() && !result.IsArray() {
+	if !result.Exists() || !result.IsArray() {
 		return nil, false
 	}
 	slice := result.Array()
